@@ -10,6 +10,12 @@ CLAIMS = {
  "C18": dict(design="DESIGN.md section 4 C18",
    text="Proof on the real code: the ClientID ring map (newClientIDMap/Set/Get) is verified against an abstract history of Set calls kept as ghost state (monitor invariant on its lock, both directions of Get: found iff the id is among the most recent cap Sets, address of its latest Set, capacity 0 handled), clientAddr against the sanitiser cases of the property (absent / unparseable / unspecified => empty, else stub port), the carrier handler registers the ClientID it read with this request's sanitised client_ip, acceptStreams looks the address up once per session and never hands out a nil RemoteAddr, RemoteAddr returns the stored address; the package-level map is non-nil (proved for the package initialiser).",
    note="net.ParseIP / IsUnspecified / TCPAddr.String are uninterpreted pure functions; kcp-go is assumed to report the ClientID as a session's remote address; sequential proof under the monitor discipline (other threads change the map only under its lock and re-establish the invariant); which carrier is 'most recent' across goroutines is the order of Set calls under the lock."),
+ "C17": dict(design="DESIGN.md section 4 C17",
+   text="Proof on the real code. Client map: the heap.Interface laws of clientMapInner (Len/Less/Swap/Push/Pop keep the index bijection byAddr<->byAge, queues open and pairwise distinct) are proved; SendQueue (existing address keeps its queue and is refreshed, absent address gets a fresh open queue, other records untouched) and removeExpired (never removes a record idle for less than the timeout, leaves none idle for the timeout or longer, closes removed queues) are proved against them with loop invariants; the ClientMap monitor invariant on its lock, the sweeper closure (removeExpired under the lock, with the constructor's timeout, every timeout/2). Queue conn: enqueues are private copies tagged with the caller's address, every send is a non-blocking select case, operations fail after Close and report errors only when closed, closed exactly once. Redial conn: errors only after close/dial failure, every obtained carrier closed before the next dial and before returning (ghost accounting), and blocking-operation obligations B1 on exchange and its two pumps (no pump can be parked forever on its error report).",
+   note="container/heap.{Push,Pop,Fix} applied to clientMapInner are ASSUMED contracts (prelude/heap_clientmap.spec), conditional on the proved heap.Interface laws; the root-is-minimum consequence of heap order is part of that assumed contract. time.Time is an integer instant. sync.Once runs its function once. Goroutine interleavings only through the monitor invariant and the B1 obligations; that a paired goroutine is running is assumed. Leak freedom beyond B1 (a carrier whose own ReadFrom never returns) is out of reach."),
+ "C05": dict(design="DESIGN.md section 4 C05",
+   text="Proof on the real code of the sequential ingredients: the carrier handler calls turbotunnelMode only after the token compared equal (token gate) and always closes the carrier; the read-loop closure attributes every upstream packet to the ClientID this carrier presented and the write-loop closure takes downstream packets only from that ClientID's queue; QueueIncoming/WriteTo enqueue private copies tagged with the caller's address; ClientMap.SendQueue returns the queue of exactly the address asked for (index bijection invariant, queues pairwise distinct: two ClientIDs never share a queue, one ClientID keeps its queue while retained); the textual form of a ClientID covers all eight bytes (kcp-go keys sessions by it).",
+   note="Exactly-one accepted connection per session and stream continuity live inside kcp-go/smux (out of reach). container/heap contracts assumed as for C17. Monitor discipline for the client map."),
 }
 NA = {
  "C01": "end-to-end delivery across proxy churn is a property of the composition of kcp-go, smux, pion and three processes under fault schedules; no contract on a function in /repo states or implies it (DESIGN.md section 6)",
